@@ -206,9 +206,11 @@ func init() {
 		lw := e.lwv(minwork)
 		work := e.work(lw)
 		chk := minmn > 0 && !e.query()
-		if m == 1 && n == 1 && (lda > 1 || ldu > 1 || ldvt > 1) {
-			// Dgesvd slices a[lda:], u[ldu:], vt[ldvt:] for the (empty) rows below the first
-			e.tag = "/1x1-padded-ld"
+		if n == 1 && m >= 1 && ((m == 1 && lda > 1) || (jobVT != lapack.SVDNone && ldvt > 1)) {
+			// tall path with n == 1: Dgesvd slices a[lda:] / vt[ldvt:] for the
+			// (empty) block of rows below the first; out of range for a one-row
+			// matrix whose leading dimension exceeds its length
+			e.tag = "/n=1-padded-ld"
 		}
 		if e.query() && e.c.Loose != 0 && minmn > 0 {
 			// the nested Dorgbr queries slice a[lda+1:] although a is only
